@@ -966,6 +966,20 @@ package consensus
 //@ func (*MidState).resolveFileContractElement
 //@   trusted
 //@   modifies ms
+// A full block reaches the proof-of-work fields of its state through ApplyHeader, applied to the
+// block's own header and to a state that differs from the parent only in fields ApplyHeader does
+// not read (C13: identical for headers and full blocks).
+//@ func forEachAppliedElement
+//@   trusted
+//@ func (*ElementAccumulator).applyBlock
+//@   trusted
+//@   modifies acc
+//@ func ApplyBlock
+//@   prop C13
+//@   asserts-only
+//@   requires s.Network != nil
+//@   at call:MidState.ApplyBlock#1 assert @applies-the-block $arg1 == b && $arg2 == bs
+//@   at call:ApplyHeader#1 assert @header-path $arg1 == b.Header() && $arg2 == targetTimestamp && $arg0.Network == ms.base.Network && $arg0.Index == ms.base.Index && $arg0.PrevTimestamps == ms.base.PrevTimestamps && $arg0.Depth == ms.base.Depth && $arg0.ChildTarget == ms.base.ChildTarget && $arg0.OakTime == ms.base.OakTime && $arg0.OakTarget == ms.base.OakTarget && $arg0.TotalWork == ms.base.TotalWork && $arg0.Difficulty == ms.base.Difficulty && $arg0.OakWork == ms.base.OakWork
 // ApplyBlock: both transaction lists are applied in order; the miner payouts and the Foundation
 // subsidy become immature outputs with the block-derived IDs; an expiring v1 contract that was
 // not resolved in the block is resolved as missed and pays its missed outputs.
@@ -976,6 +990,8 @@ package consensus
 //@ func (*MidState).ApplyBlock
 //@   prop C01 C07
 //@   asserts-only
+//@   modifies ms
+//@   ensures @assumed-base-kept ms.base == old(ms.base)
 //@   requires ms.base.Network != nil
 //@   at call:MidState.ApplyTransaction#1 assert @applies-each-v1-transaction $arg1 == txn && $arg1 == b.Transactions[i]
 //@   at call:MidState.ApplyV2Transaction#1 assert @applies-each-v2-transaction $arg1 == txn
